@@ -51,6 +51,17 @@ CHECKS = {
             "and switch/flag variants; accepted methods are pushed through the interpreter and both generators; a 20 s alarm per case decides 'never hangs'. Exhaustive below the bound, sampled above.",
             "Ids unique within a phase; trivial statements so only dependency resolution can fail downstream; liveness only as a bound.",
             "DESIGN.md 2/C10"),
+    "C03": ("Hypothesis-generated Fortran-subset programs: emitted module + generated driver compiled with gfortran and run; oracle = exact differential against NumpyInterpreter after every run() call (reference executor as referee)",
+            "Programs of the Fortran-supported subset are generated, emitted by fortran.CodeGenerator, compiled together with a driver that dumps every field of dagrt_state_type after each of 1-5 run() calls (ES25.17E3 round-trips doubles), "
+            "and compared exactly with the interpreter's persistent variables, last yielded value/time/time-id per component and next phase; compilation failure, non-zero exit or stderr output are violations. 640 programs quick, 24 000 thorough. "
+            "Two defects are pinned as known findings (1-based whole-array results; min/max over loop counters) and excluded by construction.",
+            "Exact dyadic values; cases where interpreter and my reference executor disagree are skipped as C01's business; calls inside yielded expressions are outside the supported subset (the generator raises for them).",
+            "DESIGN.md 2/C03"),
+    "C12": ("Hypothesis-generated memory-traffic programs compiled with -fsanitize=address,undefined -fcheck=pointer,bounds and run for 2-6 run() calls + shutdown; oracle = sanitizer reports, shutdown's leak lines, exit status",
+            "Programs biased to user-type temporaries (moves, overwrites, last uses in guards, yields, loops, before early exits) are compiled with ASan/LSan/UBSan and driven through completed, failed and switched steps, then shutdown; any "
+            "sanitizer report, 'leaked reference' line, Fortran run-time error or non-zero exit is a violation. A LeakSanitizer self-test runs first. 192 programs quick, 6400 thorough.",
+            "Programs that Raise are excluded (Fortran 'stop' skips clean-up by design); values are C03's business.",
+            "DESIGN.md 2/C12"),
     "C04": ("Hypothesis-generated acyclic phases run through a recording NumpyInterpreter subclass, and ExecutionController driven directly with scripted dynamic requests; oracle = history invariants over the callback log",
             "Harness A observes evaluate_condition/exec_* callbacks of the real interpreter on hand-written phases (guards, Nops, FailSteps, random ids): no statement twice, dependencies visited first, every statement visited in a step "
             "that is not cut short, exec callbacks exactly for true guards. Harness B drives the controller with drawn partial roots and requests returned from exec callbacks: same two invariants, everything requested is eventually "
